@@ -125,6 +125,7 @@ func c04Scenario(r *vkit.Run, in c04Input) {
 		bound = 0
 	}
 	st := vsched.Explore(bound, 0, func(c *vsched.Ctx) {
+		r.BeginChoices("C04", in, c.Prefix())
 		obs := c04Exec(c, in)
 		r.Eval()
 		if why := c04Oracle(in, obs); why != "" {
